@@ -213,7 +213,7 @@ def replay(ctx, case):
 
 def run(ctx):
     q = ctx.quick
-    ctx.hyp("kernels", instance(q), check_instance, 150 if q else 600)
+    ctx.hyp("kernels", instance(q), check_instance, 250 if q else 700)
     from . import wiring
 
     ctx.hyp("wiring", wiring.wiring_case("call"), wiring.check_wiring, 10 if q else 40)
